@@ -12,7 +12,7 @@ Lemma source_switches :
 Proof. repeat split; reflexivity. Qed.
 
 (* GC_Set still triggers a collection on nitems > mitems after registering the new address, and
-   mitems is still n + n/2 + 1 after a sweep / a removal (what `step` and `next_mitems` encode); the
+   mitems is set by ONE policy (gc_next_mitems, a parameter of `step`) after a sweep / a removal; the
    window minptr/maxptr is widened for EVERY registered address, also when GC_Set returns early because
    a sweep is running (allocation by a finaliser) *)
 Lemma source_threshold : gc_threshold_shape_ok = true /\ gc_finaliser_alloc_widens = true.
